@@ -474,16 +474,29 @@ def check_parse_file(data, tmpdir):
     path = os.path.join(tmpdir, "script.sieve")
     with open(path, "wb") as f:
         f.write(data)
+    import signal
     p1 = Parser()
+    old = signal.signal(signal.SIGALRM, _alarm)
+    signal.setitimer(signal.ITIMER_REAL, 3)
     try:
         v1 = p1.parse_file(path)
+    except _Timeout:
+        return []      # no verdict in time: reported as a hang by check_c02_case on the same bytes
     except BaseException as e:
         return [("parse_file.exception.%s" % type(e).__name__, "%s: %s" % (type(e).__name__, e))]
+    finally:
+        signal.setitimer(signal.ITIMER_REAL, 0)
+        signal.signal(signal.SIGALRM, old)
     p2 = Parser()
+    old = signal.signal(signal.SIGALRM, _alarm)
+    signal.setitimer(signal.ITIMER_REAL, 3)
     try:
         v2 = p2.parse(data)
     except BaseException as e:
-        return []      # parse() itself raising is reported by check_c02_case
+        return []      # parse() itself raising / hanging is reported by check_c02_case
+    finally:
+        signal.setitimer(signal.ITIMER_REAL, 0)
+        signal.signal(signal.SIGALRM, old)
     if v1 is not v2 or (v1 is False and p1.error != p2.error):
         return [("parse_file.differs-from-parse", "parse_file -> %r %r, parse -> %r %r" % (v1, p1.error, v2, p2.error))]
     return []
